@@ -230,7 +230,7 @@ func TestVerif_C07(t *testing.T) {
 	run.Assume("the impact estimate is Trace.CacheImpact(TraceTimeout) as memoised while the worker is parked (the docs do not define it further); equal impacts may be ejected in any order")
 	run.Assume("no span arrives and no send tick fires during an ejection step; kept-decision capacity far above the trace count; DryRun off")
 
-	run.Cases("ejection", run.N(170, 4000), func(ci int, rng *verifkit.Rand) {
+	run.Cases("ejection", run.N(170, 1000), func(ci int, rng *verifkit.Rand) {
 		workers := verifkit.Pick(rng, 1, 2, 3, 4)
 		tick := 250 * time.Millisecond // two monitor ticks (100ms) fit between two send ticks
 		ttCfg := time.Duration(verifkit.Pick(rng, 0, 40, 100)) * time.Second
